@@ -315,6 +315,12 @@ var solvers = map[string]solverSpec{
 	"z3": {"z3", func(f string, t float64) []string {
 		return []string{fmt.Sprintf("-T:%d", int(t+1)), "-smt2", f}
 	}, z3Pre},
+	// z3 5.1.0 with model-based quantifier instantiation off: pure E-matching. MBQI derails z3 on many goals that
+	// E-matching alone closes in well under a second (measured on the Bitmap-level drivers). Only `unsat` answers matter:
+	// without MBQI z3 gives up (unknown) earlier, it never turns a satisfiable query into unsat.
+	"z3-nomb": {"z3-new", func(f string, t float64) []string {
+		return []string{fmt.Sprintf("-T:%d", int(t+1)), "-smt2", f}
+	}, z3Pre + "(set-option :smt.auto_config false)\n(set-option :smt.mbqi false)\n"},
 	"cvc5": {"cvc5", func(f string, t float64) []string {
 		return []string{fmt.Sprintf("--tlimit=%d", int(t*1000)), "--lang=smt2", f}
 	}, "(set-logic ALL)\n"},
@@ -405,7 +411,28 @@ func solve(query string, budgetS float64, wantModel bool) SolverResult {
 	if first > 4 {
 		first = 4
 	}
-	r := runOne(context.Background(), "z3-new", query, first, wantModel)
+	var r SolverResult
+	if os.Getenv("RVC_NOMB") == "0" {
+		r = runOne(context.Background(), "z3-new", query, first, wantModel)
+	} else {
+		// stage 1: z3 5.1.0 in its default configuration and without MBQI, side by side
+		c1, cancel1 := context.WithCancel(context.Background())
+		ch1 := make(chan SolverResult, 2)
+		for _, n := range []string{"z3-new", "z3-nomb"} {
+			go func(n string) { ch1 <- runOne(c1, n, query, first, wantModel) }(n)
+		}
+		for i := 0; i < 2; i++ {
+			x := <-ch1
+			if x.Status == "unsat" || x.Status == "sat" {
+				cancel1()
+				return x
+			}
+			if x.Solver == "z3-new" || r.Solver == "" {
+				r = x
+			}
+		}
+		cancel1()
+	}
 	if r.Status == "unsat" || r.Status == "sat" {
 		return r
 	}
@@ -416,10 +443,13 @@ func solve(query string, budgetS float64, wantModel bool) SolverResult {
 	total := r.Time
 	pctx, pcancel := context.WithCancel(context.Background())
 	defer pcancel()
-	ch := make(chan SolverResult, 3)
+	ch := make(chan SolverResult, 4)
 	names := []string{"z3", "cvc5"}
 	if budgetS > first {
 		names = append(names, "z3-new")
+		if os.Getenv("RVC_NOMB") != "0" {
+			names = append(names, "z3-nomb")
+		}
 	}
 	for _, n := range names {
 		go func(n string) { ch <- runOne(pctx, n, query, budgetS, wantModel) }(n)
